@@ -6,6 +6,7 @@ functions of pytree_utils / coordinate_systems / xarray_utils and compared exact
 error kinds, integers).  Sentinel probes evaluate the round trips themselves on the real code
 (bit-identical read back through xarray, coordinate-system attrs, up/down-sampling).
 """
+import itertools
 import os
 import tempfile
 
@@ -20,8 +21,14 @@ RULE = ('nested dictionaries: depth 0..4, 0..4 entries per level, keys drawn fro
         'round-trip; keys built from parts of the separator, e.g. a: with ::, are measured and a wrong round trip is '
         'reported as multichar-separator-overlap, fixed corner cases first); a separate stream of keys containing the '
         'separator, of multi-dicts (duplicate keys through a dict subclass) and of arbitrary flat inputs '
-        'for unflatten (conflicting paths in both orders).  pytrees: 0..5 leaves, ranks 1..4, sizes 0..4 '
-        'along the axis, every axis position (positive and negative).  spectral: pairs of small grids '
+        'for unflatten (conflicting paths in both orders); keys with NUL characters (a\\x00, \\x00) are ordinary keys.  '
+        'pytrees: 0..5 leaves, ranks 1..4, sizes 0..4 along the axis, off-axis sizes 1..3 (now and then 0), every axis '
+        'position (positive and negative); the model gets every leaf as off-axis shape + slices.  About 30% of the '
+        'multi-leaf pack / stack / concat cases hold one deviating leaf (any position, the first included): one off-axis '
+        'size + 1, the same sizes permuted (equal product), another rank with equal product, another rank, each also with '
+        'no slice along the axis or with no slice in any leaf; fixed corner cases first (e.g. shapes (2,2,3) / (2,3,2), '
+        '(2,6) / (2,3,2), (0,2,3) / (2,3,2)); concat_along_axis on 1..3 trees of one structure, 40% single-slice trees '
+        '(split_axis of the concatenation must give the trees back).  spectral: pairs of small grids '
         '(both transform implementations, equal / larger / mixed truncations, different verticals).  '
         'dims: layers 1..5, time / sample / realization / user coordinates incl. collisions with the level axis and '
         'grids whose nodal shape equals the modal shape (fixed corner case M=5, L=7, 10x7 nodes, fast layout in every '
@@ -32,7 +39,7 @@ RULE = ('nested dictionaries: depth 0..4, 0..4 entries per level, keys drawn fro
         '(op, input) hashes')
 
 ALPHABET = ['a', 'b', 'ab', 'ac', 'abc', '', 'x', 'y', 'é', 'λ', '雪', '🙂', ' ', 'a b', '.', ',', '=', 'K', 'L1',
-            'tracers', 'a.b', '_', 'Z9']
+            'tracers', 'a.b', '_', 'Z9', 'a\x00', '\x00']
 SEPS = ['&', '&', '&', '/', '.', '|', 'λ']
 
 
@@ -137,7 +144,7 @@ def errkind(e: Exception) -> str:
     if 'leaves for PyTreeDef' in m or 'pytree structure error' in m or 'Custom node type mismatch' in m \
         or 'Dict key mismatch' in m or 'Tuple arity mismatch' in m or 'List arity mismatch' in m:
       return 'err:tree'
-    if 'must have the same shape' in m:
+    if 'must have the same shape' in m or 'Cannot stack arrays with different numbers of dimensions' in m:
       return 'err:shape'
     return 'err:value'
   if isinstance(e, IndexError):
@@ -247,19 +254,29 @@ def to_slices(x, axis):
   return y.reshape(y.shape[0], int(np.prod(y.shape[1:])))
 
 
-def enc_leaf(x, axis) -> str:
-  s = to_slices(x, axis)
-  if s.shape[0] == 0:
-    return 'e'
-  assert s.shape[1] > 0
-  return ';'.join(','.join(str(int(v)) for v in row) for row in s)
+def off_shape(x, axis):
+  """the shape without the working axis: what jnp.concatenate compares."""
+  shp = [int(v) for v in np.asarray(x).shape]
+  ax = axis % len(shp)
+  return shp[:ax] + shp[ax + 1:]
+
+
+def enc_shape(shp) -> str:
+  shp = [int(v) for v in shp]
+  return 'x'.join(str(v) for v in shp) if shp else '_'
 
 
 def enc_rows(rows) -> str:
+  """plain block `row;row;…` (`e` = no row; an empty row is the empty string)."""
   rows = [list(r) for r in rows]
   if not rows:
     return 'e'
   return ';'.join(','.join(str(int(v)) for v in r) for r in rows)
+
+
+def enc_leaf(x, axis) -> str:
+  """axis-major view of an array: `off:row;row;…` (Dino.Tree.Leaf)."""
+  return enc_shape(off_shape(x, axis)) + ':' + enc_rows(to_slices(x, axis))
 
 
 def enc_leaves(leaves, axis) -> str:
@@ -272,11 +289,49 @@ def enc_trees(trees, axis) -> str:
   return '/'.join(enc_leaves(t, axis) for t in trees) if trees else 'N'
 
 
-def random_tree_of(rng, leaves):
+def enc_arr(x) -> str:
+  """a whole array `shape:v,v,…` (Dino.Tree.Arr)."""
+  x = np.asarray(x)
+  return enc_shape(x.shape) + ':' + ','.join(str(int(v)) for v in x.ravel())
+
+
+def enc_arrs(xs) -> str:
+  xs = list(xs)
+  return '|'.join(enc_arr(x) for x in xs) if xs else 'E'
+
+
+def deviate(rng, off, kind):
+  """an off-axis shape that differs from `off` (None when this kind is impossible for `off`)."""
+  off = [int(v) for v in off]
+  prod = int(np.prod(off))
+  if kind == 'bump':
+    if not off:
+      return None
+    j = int(rng.integers(len(off)))
+    return off[:j] + [off[j] + 1] + off[j + 1:]
+  if kind == 'eqprod-perm':       # same rank, same product, other sizes
+    perms = sorted({p for p in itertools.permutations(off) if list(p) != off})
+    return list(perms[int(rng.integers(len(perms)))]) if perms else None
+  if kind == 'eqprod-rank':       # same product (same flattened slice width), other rank
+    cands = [[1] + off, off + [1]] + ([[prod]] if len(off) >= 2 else [])
+    return cands[int(rng.integers(len(cands)))]
+  if kind == 'rank':              # other rank, other product
+    cands = [off + [2], [3] + off] + ([off[1:]] if off and off[0] != 1 else [])
+    return cands[int(rng.integers(len(cands)))]
+  raise ValueError(kind)
+
+
+DEVIATIONS = ['bump', 'eqprod-perm', 'eqprod-rank', 'rank']
+
+
+TREE_KINDS = ['list', 'tuple', 'dict', 'nested']
+
+
+def random_tree_of(rng, leaves, kind=None):
   """arrange `leaves` in a nested container whose jax flattening order is the list order."""
   import jax
   leaves = list(leaves)
-  kind = rng.choice(['list', 'tuple', 'dict', 'nested'])
+  kind = rng.choice(TREE_KINDS) if kind is None else kind
   if kind == 'list':
     t = list(leaves)
   elif kind == 'tuple':
@@ -312,8 +367,8 @@ def run(ctx: common.Ctx):
            extra_files=['DinoProofs/Lemmas/Tree.lean', 'DinoProofs/Lemmas/TreeDict.lean',
                         'DinoProofs/Lemmas/TreeFlat.lean', 'DinoProofs/Lemmas/TreeRound.lean',
                         'DinoProofs/Lemmas/TreeEq.lean', 'DinoProofs/Lemmas/TreeReplace.lean',
-                        'DinoProofs/Lemmas/TreeArr.lean', 'DinoProofs/Lemmas/TreeMore.lean',
-                        'Dino/Tree.lean'])
+                        'DinoProofs/Lemmas/TreeArr.lean', 'DinoProofs/Lemmas/TreeLeaf.lean',
+                        'DinoProofs/Lemmas/TreeMore.lean', 'Dino/Tree.lean'])
 
   import time as _time
   _t0 = _time.time()
@@ -508,7 +563,29 @@ def run(ctx: common.Ctx):
       ctx.expect(st == 'ok', 'flatten-multichar-accepts', f'flatten_dict raised ({st}) although no key shares a '
                  'character with the separator', inp)
     if st != 'ok':
-      return   # overlap: colliding flattened keys are refused ('duplicate keys'), not mislabelled
+      # overlap stream only (a disjoint input that is refused was reported just above): flatten_dict may refuse such an
+      # input only because two different paths flatten to the same key ('duplicate keys', e.g. {'a:': {'b': 1},
+      # 'a': {':b': 2}} with '::'); the oracle must show that collision, anything else is a failure
+      if not disjoint:
+        rkeys = []
+
+        def walk(x, pre):
+          for k, v in x.items():
+            nk = k if pre is None else pre + sep + k
+            if isinstance(v, dict) and v:
+              walk(v, nk)
+            else:
+              rkeys.append((nk, isinstance(v, dict)))
+        walk(d, None)
+        leafk = [k for k, e in rkeys if not e]
+        emptk = [k for k, e in rkeys if e]
+        collide = len(set(leafk)) < len(leafk) or len(set(emptk)) < len(emptk)
+        ctx.dist[f'flatten:multichar:overlap:refused:{st}'] += 1
+        ctx.notes.append(f'multichar overlap input refused by flatten_dict ({st}): d={d!r} sep={sep!r}')
+        ctx.expect(st == 'err:dup' and collide, 'flatten-multichar-refusal',
+                   f'flatten_dict refused ({st}) an input without separator in any key whose flattened keys '
+                   f'{"collide" if collide else "do not collide"}', inp)
+      return
     flat, empties = val
     rf, re_ = ref_flatten(d, sep)
     ctx.expect(flat == rf and sorted(empties) == sorted(re_), 'flatten-oracle',
@@ -531,7 +608,9 @@ def run(ctx: common.Ctx):
   MSEPS = ['::', '--', '/.', 'ab', 'aa', '&&', '.:.', 'aba', 'λ雪', '::', '&&']
   # fixed corner cases first: the review's input is reported in every run as long as the real code mislabels
   for d, sep in [({'a:': {'b': 1}}, '::'), ({'a': {':b': 1}}, '::'), ({'a': {'b': 1}}, 'aa'), ({'x': {'-': {}}}, '--'),
-                 ({'a:': {}}, '::'), ({'/': {'.': 1, '': 2}}, '/.'), ({'λ': {'雪': {}, 'x': 1}}, 'λ雪')]:
+                 ({'a:': {}}, '::'), ({'/': {'.': 1, '': 2}}, '/.'), ({'λ': {'雪': {}, 'x': 1}}, 'λ雪'),
+                 # two paths with one flattened key: refused as 'duplicate keys' (checked, not skipped)
+                 ({'a:': {'b': 1}, 'a': {':b': 2}}, '::'), ({'a:': {'b': {}}, 'a': {':b': {}}}, '::')]:
     multichar_case(d, sep, 'overlap-corner')
   for d, sep in [({'a': {'b': 1, '': {}}, '': {'c': {}, '': {'': 3}}}, '::'), ({}, '--'), ({'': {}}, 'ab'),
                  ({'x': {'y': {'z': 1}}, 'xy': {'z': 2}, 'x y': {}}, 'aa'), ({'雪': {'🙂': {}, 'é': 4}}, '/.')]:
@@ -545,9 +624,11 @@ def run(ctx: common.Ctx):
       parts = sorted({sep[:j] for j in range(1, len(sep))} | {sep[j:] for j in range(1, len(sep))})
       alpha = parts + ['x' + q for q in parts] + [q + 'y' for q in parts] + ['', 'x', 'y', 'xy']
       multichar_case(gen_dict(rng, sep, max_depth=int(rng.choice([1, 2, 3])), alphabet=alpha), sep, 'overlap')
-  # NUL-suffixed keys (repaired defect: np.unique on a numpy unicode array dropped trailing NULs, so distinct keys looked
-  # like duplicates): the round trip must hold; a regression is reported with this input as replay
-  for dnul in ({'a': 1, 'a\x00': 2}, {'b': {'c\x00': {}, 'c': {}}, 'b\x00': {'c': 3}}):
+  # NUL-suffixed keys (repaired defect, /repo commit 0ddc902: np.unique on a numpy unicode array dropped trailing NULs, so
+  # distinct keys looked like duplicates).  Keys with NULs are ordinary keys of the claim (ALPHABET holds 'a\x00' and
+  # '\x00'): flatten_dict must accept them and the round trip must hold; a regression is a failure with this input
+  for dnul in ({'a': 1, 'a\x00': 2}, {'b': {'c\x00': {}, 'c': {}}, 'b\x00': {'c': 3}}, {'\x00': {'': 1}, '': {'\x00': 1}}):
+    dict_cases(dnul, '&', 'valid')   # also compared with the model (exact key comparison) and the oracle
     inp = dict(d=repr(dnul), sep='&')
     with ctx.impl('nul-suffixed-keys', inp, 'flatten_dict / unflatten_dict raised on keys differing by trailing NULs'):
       flat, empty = pu.flatten_dict(dnul)
@@ -568,96 +649,180 @@ def run(ctx: common.Ctx):
   def rand_rest(k):
     return tuple(int(v) for v in rng.choice([1, 2, 3], size=k))
 
-  ntree = ctx.n(60, 600)
+  def rand_off(k):
+    """off-axis sizes: mostly 1..3, now and then a zero-size axis."""
+    r = list(rand_rest(k))
+    if k and rng.random() < 0.08:
+      r[int(rng.integers(k))] = 0
+    return r
+
+  def with_axis(off, pos, size):
+    off = list(off)
+    return tuple(off[:pos]) + (int(size),) + tuple(off[pos:])
+
+  def same_arrays(xs, ys):
+    xs, ys = list(xs), list(ys)
+    return len(xs) == len(ys) and all(np.asarray(x).shape == np.asarray(y).shape and
+                                      np.asarray(x).tobytes() == np.asarray(y).tobytes() for x, y in zip(xs, ys))
+
+  # ---- pack / unpack.  The leaves are described by (off-axis shape, size along the axis); `pos` is the position of
+  # the working axis in every leaf (the position jnp.concatenate derives from the rank of the FIRST leaf, also for a
+  # negative axis).  Deviating leaves: another off-axis size (bump), the same sizes permuted (equal product), another
+  # rank with the same / another product, each also with no slice along the axis.
+  PACK_CORNERS = [  # (shapes, axis)
+      ([], 0), ([(2, 3)], 0), ([(1, 2), (0, 2), (3, 2)], 0),
+      ([(2, 2, 3), (2, 3, 2)], 0),        # review2 F / C19 N2: equal product, TypeError
+      ([(2, 6), (2, 3, 2)], 0),           # rank mismatch, equal slice width
+      ([(2, 3, 2), (2, 6)], 0),
+      ([(0, 2, 3), (2, 3, 2)], 0),        # the deviating leaf is the one without slices
+      ([(2, 2, 3), (0, 3, 2)], 0),
+      ([(0, 2, 3), (0, 3, 2)], 0),        # no leaf has a slice
+      ([(0, 2, 3), (2, 2, 3)], 0),        # consistent, first leaf empty
+      ([(2, 3), (4, 2, 3)], -1),          # negative axis, ranks differ: the axis of the first leaf counts
+      ([(2, 3, 1), (2, 1, 3)], 1),
+      ([(2, 0), (3, 0)], 0),              # zero-size off-axis dimension, consistent
+      ([(2, 0, 2), (1, 2, 0)], 0),        # products 0 == 0, sizes differ
+      ([(3,), (0,), (2,)], 0), ([(3,), (2, 1)], 0),
+  ]
+  ntree = ctx.n(90, 900)
   for i in range(ntree):
-    nleaves = int(rng.choice([0, 1, 2, 3, 4, 5])) if i >= 3 else [0, 1, 2][i]
-    rest = rand_rest(int(rng.integers(1, 4)))          # off-axis dims (>= 1 of them, all >= 1)
-    pos = int(rng.integers(0, len(rest) + 1))
-    ndim = len(rest) + 1
-    axis = pos - ndim if rng.random() < 0.5 else pos
-    sizes = [int(rng.choice([0, 1, 1, 2, 3, 4])) for _ in range(nleaves)]
-    mismatch = nleaves >= 2 and rng.random() < 0.1
-    if mismatch:   # the two leaves that disagree must both have slices
-      sizes[0], sizes[-1] = max(1, sizes[0]), max(1, sizes[-1])
-    leaves = []
-    for j, s in enumerate(sizes):
-      r = list(rest)
-      if mismatch and j == nleaves - 1:
-        r[0] += 1
-      leaves.append(arr(tuple(r[:pos]) + (s,) + tuple(r[pos:])))
+    if i < len(PACK_CORNERS):
+      shapes, axis = PACK_CORNERS[i]
+      kind = 'corner'
+      pos = axis % len(shapes[0]) if shapes else 0
+    else:
+      nleaves = int(rng.choice([0, 1, 2, 3, 4, 5]))
+      off = rand_off(int(rng.integers(0, 4)))            # off-axis dims of the consistent leaves (rank 1..4)
+      sizes = [int(rng.choice([0, 1, 1, 2, 3, 4])) for _ in range(nleaves)]
+      offs = [list(off) for _ in range(nleaves)]
+      kind = 'consistent'
+      if nleaves >= 2 and rng.random() < 0.3:
+        kind = str(rng.choice(DEVIATIONS))
+        dev = deviate(rng, off, kind)
+        if dev is None:
+          kind, dev = 'bump', (deviate(rng, off, 'bump') or [2])
+        j = int(rng.integers(nleaves))                    # the deviating leaf (the first one included)
+        offs[j] = dev
+        if rng.random() < 0.35:
+          sizes[j] = 0
+          kind += '+empty-leaf'
+        if rng.random() < 0.15:
+          sizes = [0] * nleaves
+          kind += '+all-empty'
+      pos = int(rng.integers(0, min(len(o) for o in offs) + 1)) if offs else 0
+      shapes = [with_axis(o, pos, z) for o, z in zip(offs, sizes)]
+      axis = pos - len(shapes[0]) if (shapes and rng.random() < 0.5) else pos
+    leaves = [arr(shp) for shp in shapes]
+    nleaves = len(leaves)
+    sizes = [int(shp[pos]) for shp in shapes]
+    consistent = len({tuple(off_shape(l, pos)) for l in leaves}) <= 1
     tree = random_tree_of(rng, leaves)
-    inp = dict(shapes=[list(l.shape) for l in leaves], axis=axis)
+    inp = dict(shapes=[list(l.shape) for l in leaves], axis=axis, stream=kind)
     ctx.dist[f'pack:leaves={nleaves}'] += 1
+    ctx.dist[f'pack:stream:{kind}'] += 1
     ctx.dist[f'axis={"neg" if axis < 0 else "pos"}'] += 1
     ctx.case(('pack', repr(inp)), nontrivial=nleaves >= 2, sample=dict(op='pack/unpack', **inp))
     st, packed = real(lambda: pu.pack_pytree(tree, axis))
     if st == 'ok':
-      impl = 'none' if packed is None else f'ok {enc_leaf(packed, axis)}'
+      impl = 'none' if packed is None else f'ok {enc_leaf(packed, pos)}'
     else:
       impl = st
-    add(f'tree pack {enc_leaves(leaves, axis)}', 'pack_pytree', inp, impl)
+    add(f'tree pack {enc_leaves(leaves, pos)}', 'pack_pytree', inp, impl)
     ctx.dist[f'pack:{st if st != "ok" else ("none" if packed is None else "ok")}'] += 1
+    # acceptance, evaluated on the real code (theorem pack_ok_iff): an array exactly for >= 1 leaves whose shapes agree
+    # off the axis, size by size
+    ctx.expect((st == 'ok' and (packed is not None) == (nleaves > 0)) if consistent else st == 'err:shape',
+               'pack-acceptance', f'pack_pytree: {st} on leaves whose off-axis shapes '
+               f'{"agree" if consistent else "differ"}', inp)
     if st == 'ok' and packed is not None:
-      shapes = jax.tree_util.tree_map(lambda x: np.asarray(x.shape), tree)
-      st2, back = real(lambda: pu.unpack_to_pytree(packed, shapes, axis))
+      shapes_t = jax.tree_util.tree_map(lambda x: np.asarray(x.shape), tree)
+      st2, back = real(lambda: pu.unpack_to_pytree(packed, shapes_t, axis))
       bl = jax.tree_util.tree_leaves(back) if st2 == 'ok' else None
-      add(f'tree unpack {enc_leaf(packed, axis)} {common.ivec(sizes)}', 'unpack_to_pytree', inp,
-          f'ok {enc_leaves(bl, axis)}' if st2 == 'ok' else st2)
+      add(f'tree unpack {enc_leaf(packed, pos)} {common.ivec(sizes)}', 'unpack_to_pytree', inp,
+          f'ok {enc_leaves(bl, pos)}' if st2 == 'ok' else st2)
       ok = st2 == 'ok' and jax.tree_util.tree_structure(back) == jax.tree_util.tree_structure(tree) and \
-          all(np.asarray(a).shape == b.shape and np.asarray(a).tobytes() == b.tobytes() for a, b in zip(bl, leaves))
+          same_arrays(bl, leaves)
       ctx.expect(ok, 'pack-unpack-roundtrip', f'unpack_to_pytree(pack_pytree(x)) != x ({st2})', inp)
-      # arbitrary (dishonest) sizes: correspondence of the clipping semantics only
+      # arbitrary (dishonest) sizes: correspondence of the clipping semantics, and pack(unpack(a, sizes)) == a
       fake = [int(rng.integers(0, 5)) for _ in range(int(rng.integers(0, 4)))]
-      fshapes = [np.asarray(tuple(rest[:pos]) + (s,) + tuple(rest[pos:])) for s in fake]
+      off0 = off_shape(packed, pos)
+      fshapes = [np.asarray(with_axis(off0, pos, z)) for z in fake]
       st3, back3 = real(lambda: pu.unpack_to_pytree(packed, fshapes, axis))
-      add(f'tree unpack {enc_leaf(packed, axis)} {common.ivec(fake)}', 'unpack_to_pytree (arbitrary sizes)',
+      add(f'tree unpack {enc_leaf(packed, pos)} {common.ivec(fake)}', 'unpack_to_pytree (arbitrary sizes)',
           dict(packed_shape=list(packed.shape), sizes=fake, axis=axis),
-          f'ok {enc_leaves(back3, axis)}' if st3 == 'ok' else st3)
+          f'ok {enc_leaves(back3, pos)}' if st3 == 'ok' else st3)
       if st3 == 'ok':
-        re3 = np.concatenate([np.asarray(b) for b in back3], axis) if back3 else None
-        ctx.expect(re3 is not None and re3.tobytes() == np.asarray(packed).tobytes(), 'unpack-pack-roundtrip',
-                   'pack(unpack(array, sizes)) != array', dict(sizes=fake, axis=axis, shape=list(packed.shape)))
+        st4, re3 = real(lambda: pu.pack_pytree(list(back3), axis))
+        ctx.expect(st4 == 'ok' and re3 is not None and same_arrays([re3], [packed]), 'unpack-pack-roundtrip',
+                   f'pack_pytree(unpack_to_pytree(array, sizes)) != array ({st4})',
+                   dict(sizes=fake, axis=axis, shape=list(packed.shape)))
 
-  # stack / unstack
-  for i in range(ctx.n(40, 400)):
-    nleaves = int(rng.choice([0, 1, 2, 3, 4])) if i >= 2 else i
-    shape = rand_rest(int(rng.integers(1, 4)))
-    nd = len(shape) + 1
-    axis = int(rng.integers(-nd, nd))
-    mismatch = nleaves >= 2 and rng.random() < 0.1
-    leaves = [arr(shape if not (mismatch and j == 1) else (shape[0] + 1,) + shape[1:]) for j in range(nleaves)]
+  # ---- stack / unstack
+  STACK_CORNERS = [  # (shapes, axis)
+      ([], 0), ([(2, 3)], 1), ([(2, 3), (2, 3)], -1),
+      ([(2, 3), (3, 2)], 0),              # equal number of entries, ValueError
+      ([(6,), (3, 2)], 0),                # rank mismatch
+      ([(3, 2), (6,)], 0),
+      ([(0, 2), (0, 3)], 1), ([(0, 2), (2, 0)], 1), ([(0, 2), (0, 2)], 1),   # no entries at all
+      ([(2,), (2,), (2,)], 1),
+  ]
+  for i in range(ctx.n(60, 600)):
+    if i < len(STACK_CORNERS):
+      shapes, axis = STACK_CORNERS[i]
+      kind = 'corner'
+    else:
+      nleaves = int(rng.choice([0, 1, 2, 3, 4]))
+      shape = rand_off(int(rng.integers(1, 4)))
+      shapes = [tuple(shape) for _ in range(nleaves)]
+      kind = 'consistent'
+      if nleaves >= 2 and rng.random() < 0.3:
+        kind = str(rng.choice(DEVIATIONS))
+        dev = deviate(rng, shape, kind)
+        if dev is None:
+          kind, dev = 'bump', deviate(rng, shape, 'bump')
+        shapes[int(rng.integers(nleaves))] = tuple(dev)
+      nd = (len(shapes[0]) if shapes else len(shape)) + 1
+      axis = int(rng.integers(-nd, nd))
+    leaves = [arr(shp) for shp in shapes]
+    nleaves = len(leaves)
+    consistent = len({l.shape for l in leaves}) <= 1
     tree = random_tree_of(rng, leaves)
-    inp = dict(shapes=[list(l.shape) for l in leaves], axis=axis)
+    inp = dict(shapes=[list(l.shape) for l in leaves], axis=axis, stream=kind)
     ctx.case(('stack', repr(inp)), nontrivial=nleaves >= 2)
+    ctx.dist[f'stack:stream:{kind}'] += 1
     st, stacked = real(lambda: pu.stack_pytree(tree, axis))
-    line_leaves = enc_rows([l.ravel() for l in leaves]) if leaves else 'e'
     if st == 'ok':
       impl = 'none' if stacked is None else f'ok {enc_leaf(stacked, axis)}'
     else:
       impl = st
     ctx.dist[f'stack:{st if st != "ok" else ("none" if stacked is None else "ok")}'] += 1
-    add(f'tree stack {line_leaves}', 'stack_pytree', inp, impl)
+    add(f'tree stack {enc_arrs(leaves)}', 'stack_pytree', inp, impl)
+    ctx.expect((st == 'ok' and (stacked is not None) == (nleaves > 0)) if consistent else st == 'err:shape',
+               'stack-acceptance', f'stack_pytree: {st} on leaves whose shapes {"agree" if consistent else "differ"}', inp)
     if st == 'ok' and stacked is not None:
-      shapes = jax.tree_util.tree_map(lambda x: np.asarray(x.shape), tree)
-      st2, back = real(lambda: pu.unstack_to_pytree(stacked, shapes, axis))
+      shapes_t = jax.tree_util.tree_map(lambda x: np.asarray(x.shape), tree)
+      st2, back = real(lambda: pu.unstack_to_pytree(stacked, shapes_t, axis))
       bl = jax.tree_util.tree_leaves(back) if st2 == 'ok' else None
       add(f'tree unstack {enc_leaf(stacked, axis)} {nleaves}', 'unstack_to_pytree', inp,
-          f'ok {enc_rows([np.asarray(b).ravel() for b in bl])}' if st2 == 'ok' else st2)
-      ok = st2 == 'ok' and all(np.asarray(a).shape == b.shape and np.asarray(a).tobytes() == b.tobytes()
-                               for a, b in zip(bl, leaves)) and len(bl) == len(leaves)
-      ctx.expect(ok, 'stack-unstack-roundtrip', f'unstack_to_pytree(stack_pytree(x)) != x ({st2})', inp)
+          f'ok {enc_arrs(bl)}' if st2 == 'ok' else st2)
+      ctx.expect(st2 == 'ok' and same_arrays(bl, leaves), 'stack-unstack-roundtrip',
+                 f'unstack_to_pytree(stack_pytree(x)) != x ({st2})', inp)
+      # the converse law (theorem stack_unstack): stacking what unstack returned gives the array back
+      if st2 == 'ok':
+        st4, re4 = real(lambda: pu.stack_pytree(back, axis))
+        ctx.expect(st4 == 'ok' and re4 is not None and same_arrays([re4], [stacked]), 'unstack-stack-roundtrip',
+                   f'stack_pytree(unstack_to_pytree(a)) != a ({st4})', inp)
       # wrong number of leaves in the template
       wrong = nleaves + int(rng.choice([-1, 1, 2]))
       if wrong >= 0:
-        tmpl = [np.asarray(shape)] * wrong
+        tmpl = [np.asarray(leaves[0].shape)] * wrong
         st3, back3 = real(lambda: pu.unstack_to_pytree(stacked, tmpl, axis))
         add(f'tree unstack {enc_leaf(stacked, axis)} {wrong}', 'unstack_to_pytree (wrong template)',
-            dict(**inp, template_leaves=wrong),
-            f'ok {enc_rows([np.asarray(b).ravel() for b in back3])}' if st3 == 'ok' else st3)
+            dict(**inp, template_leaves=wrong), f'ok {enc_arrs(back3)}' if st3 == 'ok' else st3)
   st, _ = real(lambda: pu.unstack_to_pytree(np.zeros((0, 3)), [], 0))
-  add('tree unstack e 0', 'unstack_to_pytree (size 0)', dict(shape=[0, 3]), st)
+  add('tree unstack 3:e 0', 'unstack_to_pytree (size 0)', dict(shape=[0, 3]), st)
 
-  # split_along_axis / concat_along_axis / slice guards / split_axis
+  # ---- split_along_axis / concat_along_axis / slice guards
   for i in range(ctx.n(60, 600)):
     nleaves = int(rng.choice([0, 1, 2, 3]))
     axis = int(rng.integers(0, 3))
@@ -685,9 +850,8 @@ def run(ctx: common.Ctx):
       cl = jax.tree_util.tree_leaves(cat) if st2 == 'ok' else None
       add(f'tree concat {enc_trees([a, b], axis)}', 'concat_along_axis', inp,
           f'ok {enc_leaves(cl, axis)}' if st2 == 'ok' else st2)
-      ok = st2 == 'ok' and len(cl) == len(leaves) and all(
-          np.asarray(x).shape == y.shape and np.asarray(x).tobytes() == y.tobytes() for x, y in zip(cl, leaves))
-      ctx.expect(ok, 'split-concat-roundtrip', f'concat_along_axis(split_along_axis(x)) != x ({st2})', inp)
+      ctx.expect(st2 == 'ok' and same_arrays(cl, leaves), 'split-concat-roundtrip',
+                 f'concat_along_axis(split_along_axis(x)) != x ({st2})', inp)
     # guards
     gaxis = int(rng.choice([-2, -1, 0, 1, 2, 3]))
     gexp = bool(rng.random() < 0.5)
@@ -698,8 +862,62 @@ def run(ctx: common.Ctx):
   st, _ = real(lambda: pu.concat_along_axis([], 0))
   add('tree concat N', 'concat_along_axis (no trees)', {}, st)
   st, _ = real(lambda: pu.concat_along_axis([[np.zeros((1, 2))], [np.zeros((1, 2)), np.zeros((1, 2))]], 0))
-  add('tree concat 0,0/0,0|0,0', 'concat_along_axis (different structures)', {}, st)
+  add('tree concat 2:0,0/2:0,0|2:0,0', 'concat_along_axis (different structures)', {}, st)
 
+  # ---- concat_along_axis on arbitrary lists of trees (1..3 trees of one structure; leaf positions with their own
+  # ranks and off-axis shapes; a deviating leaf in any tree, the first one included), and the converse law
+  # split_axis(concat_along_axis(trees)) == trees on single-slice trees (theorem splitAxis_concat)
+  CONCAT_CORNERS = [  # (per tree: list of leaf shapes, axis)
+      ([[(2, 2, 3)], [(2, 3, 2)]], 0), ([[(2, 6)], [(2, 3, 2)]], 0), ([[(0, 2, 3)], [(2, 3, 2)]], 0),
+      ([[(0, 2, 3), (1, 4)], [(2, 2, 3), (1, 4)]], 0), ([[(1, 2)], [(2, 2)], [(1, 3)]], 0),
+      ([[(1, 2), (1,)], [(1, 2), (1,)], [(1, 2), (1,)]], 0), ([[], []], 0), ([[(3, 1, 2)]], 1),
+  ]
+  for i in range(ctx.n(60, 600)):
+    if i < len(CONCAT_CORNERS):
+      tshapes, axis = CONCAT_CORNERS[i]
+      kind = 'corner'
+    else:
+      ntrees = int(rng.choice([1, 2, 2, 3]))
+      nleaves = int(rng.choice([0, 1, 2, 3]))
+      axis = int(rng.integers(0, 3))
+      single = rng.random() < 0.4          # every leaf has exactly one slice: the trees that split_axis produces
+      offs = [rand_off(int(rng.integers(axis, axis + 3))) for _ in range(nleaves)]
+      toffs = [[list(o) for o in offs] for _ in range(ntrees)]
+      kind = 'single-slice' if single else 'consistent'
+      if ntrees >= 2 and nleaves >= 1 and rng.random() < 0.3:
+        kind = str(rng.choice(DEVIATIONS))
+        j = int(rng.integers(nleaves))
+        dev = deviate(rng, offs[j], kind)
+        if dev is None or len(dev) < axis:
+          kind, dev = 'rank', offs[j] + [2]
+        toffs[int(rng.integers(ntrees))][j] = dev
+      tshapes = [[with_axis(o, axis, 1 if single else int(rng.choice([0, 1, 2, 3]))) for o in to] for to in toffs]
+    tkind = str(rng.choice(TREE_KINDS))
+    tleaves = [[arr(shp) for shp in ts_] for ts_ in tshapes]
+    trees = [random_tree_of(rng, ls, tkind) for ls in tleaves]
+    nleaves = len(tleaves[0])
+    consistent = all(len({tuple(off_shape(t[j], axis)) for t in tleaves}) == 1 for j in range(nleaves))
+    inp = dict(shapes=[[list(l.shape) for l in t] for t in tleaves], axis=axis, stream=kind)
+    ctx.case(('concat', repr(inp)), nontrivial=len(trees) >= 2 and nleaves >= 1)
+    ctx.dist[f'concat:stream:{kind}'] += 1
+    st, cat = real(lambda: pu.concat_along_axis(trees, axis))
+    ctx.dist[f'concat:{st}'] += 1
+    cl = jax.tree_util.tree_leaves(cat) if st == 'ok' else None
+    add(f'tree concat {enc_trees(tleaves, axis)}', 'concat_along_axis (lists of trees)', inp,
+        f'ok {enc_leaves(cl, axis)}' if st == 'ok' else st)
+    ctx.expect(st == 'ok' if consistent else st == 'err:shape', 'concat-acceptance',
+               f'concat_along_axis: {st} on trees whose leaves {"agree" if consistent else "differ"} off the axis', inp)
+    if st == 'ok' and nleaves >= 1 and all(l.shape[axis] == 1 for t in tleaves for l in t):
+      st2, res = real(lambda: pu.split_axis(cat, axis, True))
+      rl = [jax.tree_util.tree_leaves(t) for t in res] if st2 == 'ok' else None
+      add(f'tree splitaxis 1 {enc_leaves(cl, axis)}', 'split_axis (of a concatenation)', inp,
+          f'ok {enc_trees(rl, axis)}' if st2 == 'ok' else st2)
+      ok = st2 == 'ok' and len(rl) == len(tleaves) and all(same_arrays(x, y) for x, y in zip(rl, tleaves)) and \
+          all(jax.tree_util.tree_structure(x) == jax.tree_util.tree_structure(y) for x, y in zip(res, trees))
+      ctx.expect(ok, 'concat-split-axis-roundtrip',
+                 f'split_axis(concat_along_axis(trees), keep_dims=True) != trees ({st2})', inp)
+
+  # ---- split_axis
   for i in range(ctx.n(40, 400)):
     nleaves = int(rng.choice([0, 1, 2, 3])) if i >= 2 else i
     nd = int(rng.integers(1, 4))
@@ -722,8 +940,7 @@ def run(ctx: common.Ctx):
       if keep:
         impl = f'ok {enc_trees(trees, axis)}'
       else:
-        impl = 'ok ' + ('/'.join('|'.join(','.join(str(int(v)) for v in np.asarray(l).ravel()) for l in t) for t in trees)
-                        if trees else 'N')
+        impl = 'ok ' + ('/'.join(enc_arrs(t) for t in trees) if trees else 'N')
     else:
       impl = st
     add(f'tree splitaxis {int(keep)} {enc_leaves(leaves, axis)}', 'split_axis', inp, impl)
@@ -734,9 +951,8 @@ def run(ctx: common.Ctx):
       else:
         st2 = 'ok'
         cl = [np.stack([np.asarray(t[j]) for t in trees], axis) for j in range(nleaves)]
-      ok = st2 == 'ok' and len(cl) == nleaves and all(
-          np.asarray(x).shape == y.shape and np.asarray(x).tobytes() == y.tobytes() for x, y in zip(cl, leaves))
-      ctx.expect(ok, 'split-axis-roundtrip', 're-assembling split_axis(x) does not give x', inp)
+      ctx.expect(st2 == 'ok' and same_arrays(cl, leaves), 'split-axis-roundtrip',
+                 're-assembling split_axis(x) does not give x', inp)
 
   _mark('B pytrees')
   # ================================================================== C. spectral resampling
@@ -1218,12 +1434,18 @@ def run(ctx: common.Ctx):
         # through a NetCDF file (only sigma / pressure / layer attrs that NetCDF can hold)
         if i % 4 == 0 or (vk == 'pressure' and layers == 1):
           path = os.path.join(tmpdir, f'ds_{i}.nc')
-          try:
-            xu.save_netcdf(ds, path)
-            saved = True
-          except Exception as e:  # pylint: disable=broad-except
-            saved = False
-            ctx.dist[f'netcdf-skipped:{type(e).__name__}'] += 1
+          saved = False
+          with ctx.impl('netcdf-roundtrip', sinp, what='save_netcdf raised'):
+            try:
+              xu.save_netcdf(ds, path)
+              saved = True
+            except UnicodeEncodeError as e:
+              # external (xarray's scipy NetCDF-3 writer encodes variable names as latin-1 / ascii): only possible for a
+              # non-ASCII tracer name; skipped and noted, any other exception is a failure of the property
+              ctx.dist['netcdf-skipped:UnicodeEncodeError'] += 1
+              ctx.notes.append(f'save_netcdf skipped (UnicodeEncodeError: {str(e)[:80]}) for tracers {tracer_names}')
+              ctx.expect(any(not t.isascii() for t in tracer_names), 'netcdf-roundtrip',
+                         f'save_netcdf raised UnicodeEncodeError although all names are ASCII: {e}', sinp)
           if saved:
             # NetCDF hands a 1-element attribute back as a scalar: single pressure level (repaired in 55ef2a8)
             nkey = 'netcdf-single-pressure-level' if (vk == 'pressure' and layers == 1) else 'netcdf-roundtrip'
